@@ -174,6 +174,34 @@ func protdistFamily(env *Env) error {
 		if ev.Kind != "ok" {
 			continue
 		}
+		// the command line offers the model frequencies and no site weights: the matrix it prints is judged with the
+		// eigen-system of the same model (read from the library object above)
+		if cliSampled(i) && o.ModelFreqs && len(o.Wts) == 0 {
+			name := o.Model
+			if name == "dayhoff" {
+				name = "dayoff" // the spelling the command accepts
+			}
+			argv := []string{"compute", "distance", "--alphabet", "aa", "-m", name}
+			if o.RmGaps {
+				argv = append(argv, "-r")
+			}
+			if o.Gamma {
+				argv = append(argv, "--alpha", o.Alpha)
+			}
+			out, errs, code := runGoalign(fastaRows(rows), argv...)
+			ce := ev
+			ce.ID = id + ":cli"
+			if code != 0 {
+				ce.Kind, ce.Msg, ce.D = cliKind(errs), errs, [][]string{}
+				if len(ce.Msg) > 500 {
+					ce.Msg = ce.Msg[:500]
+				}
+				env.Emit(ce)
+			} else if m, good := parseDistText(out, n); good {
+				ce.D, ce.Msg = m, "goalign "+fmt.Sprint(argv)
+				env.Emit(ce)
+			}
+		}
 		// reordering the sequences permutes the matrix; reordering the columns leaves it unchanged
 		p := rng.Perm(n)
 		rows2 := make([][]int, n)
